@@ -222,7 +222,10 @@ pub fn gen_v3(rng: &mut Rng, t: usize, sz: Sizes) -> v3::Packet {
         6 => Packet::Pubcomp(gen_pid(rng)),
         7 => {
             let n = 1 + rng.below(4) as usize;
-            Packet::Subscribe(Subscribe { pid: gen_pid(rng), topics: (0..n).map(|_| (gen_topic_filter(rng, sz), gen_qos(rng))).collect() })
+            {
+                let topics: Vec<_> = (0..n).map(|_| (gen_topic_filter(rng, sz), gen_qos(rng))).collect();
+                Packet::Subscribe(Subscribe { pid: gen_pid(rng), topics: with_repeats(rng, topics) })
+            }
         }
         8 => {
             let n = rng.below(5) as usize;
@@ -233,7 +236,10 @@ pub fn gen_v3(rng: &mut Rng, t: usize, sz: Sizes) -> v3::Packet {
         }
         9 => {
             let n = 1 + rng.below(4) as usize;
-            Packet::Unsubscribe(Unsubscribe { pid: gen_pid(rng), topics: (0..n).map(|_| gen_topic_filter(rng, sz)).collect() })
+            {
+                let topics: Vec<_> = (0..n).map(|_| gen_topic_filter(rng, sz)).collect();
+                Packet::Unsubscribe(Unsubscribe { pid: gen_pid(rng), topics: with_repeats(rng, topics) })
+            }
         }
         10 => Packet::Unsuback(gen_pid(rng)),
         11 => Packet::Pingreq,
@@ -494,7 +500,35 @@ pub fn gen_props(rng: &mut Rng, ids: &[u8], sz: Sizes, mode: u8, one: usize) -> 
     for _ in 0..nu {
         m.user.push((gen_text(rng, Sizes { big: false }), gen_text(rng, Sizes { big: false })));
     }
+    m.user = with_repeats(rng, std::mem::take(&mut m.user));
     m
+}
+
+/// Lists with REPEATED elements (adjacent, or first = last): nothing in MQTT forbids the same filter,
+/// code or user property twice, and a decoder that normalises them changes the packet.
+pub fn with_repeats<T: Clone>(rng: &mut Rng, mut v: Vec<T>) -> Vec<T> {
+    if v.is_empty() || !rng.chance(1, 3) {
+        return v;
+    }
+    match rng.below(3) {
+        0 => {
+            let i = rng.below(v.len() as u64) as usize;
+            let x = v[i].clone();
+            v.insert(i, x); // adjacent duplicate
+        }
+        1 => {
+            let x = v[0].clone();
+            v.push(x); // first repeated at the end
+        }
+        _ => {
+            let x = v[v.len() - 1].clone();
+            let n = 1 + rng.below(2) as usize;
+            for _ in 0..n {
+                v.push(x.clone()); // a run at the end
+            }
+        }
+    }
+    v
 }
 
 fn payload_for(rng: &mut Rng, m: &PMap, sz: Sizes) -> Vec<u8> {
@@ -565,9 +599,12 @@ pub fn gen_v5(rng: &mut Rng, t: usize, sz: Sizes, pmode: u8, one: usize) -> v5::
             Packet::Subscribe(Subscribe {
                 pid: gen_pid(rng),
                 properties: v5text::mk_subscribe_props(&props),
-                topics: (0..n)
-                    .map(|_| (gen_topic_filter(rng, sz), SubscriptionOptions { max_qos: gen_qos(rng), no_local: rng.chance(1, 2), retain_as_published: rng.chance(1, 2), retain_handling: *rng.pick(&v5text::RETAIN_H) }))
-                    .collect(),
+                topics: {
+                    let t: Vec<_> = (0..n)
+                        .map(|_| (gen_topic_filter(rng, sz), SubscriptionOptions { max_qos: gen_qos(rng), no_local: rng.chance(1, 2), retain_as_published: rng.chance(1, 2), retain_handling: *rng.pick(&v5text::RETAIN_H) }))
+                        .collect();
+                    with_repeats(rng, t)
+                },
             })
         }
         8 => {
@@ -578,7 +615,7 @@ pub fn gen_v5(rng: &mut Rng, t: usize, sz: Sizes, pmode: u8, one: usize) -> v5::
         9 => {
             let props = gen_props(rng, &v5text::UNSUBSCRIBE_IDS, sz, pmode, one);
             let n = 1 + rng.below(4) as usize;
-            Packet::Unsubscribe(Unsubscribe { pid: gen_pid(rng), properties: UnsubscribeProperties { user_properties: v5text::mk_disconnect_props(&props).user_properties }, topics: (0..n).map(|_| gen_topic_filter(rng, sz)).collect() })
+            Packet::Unsubscribe(Unsubscribe { pid: gen_pid(rng), properties: UnsubscribeProperties { user_properties: v5text::mk_disconnect_props(&props).user_properties }, topics: { let t: Vec<_> = (0..n).map(|_| gen_topic_filter(rng, sz)).collect(); with_repeats(rng, t) } })
         }
         10 => {
             let (reason_string, user_properties) = reason_ps(&gen_props(rng, &v5text::ACK_IDS, sz, pmode, one));
@@ -611,4 +648,95 @@ pub fn respell_v5(rng: &mut Rng, enc: &[u8]) -> Vec<u8> {
         }
     }
     v
+}
+
+// ---------------------------------------------------------------------------------------------- sweeps
+
+fn sweep_lengths(thorough: bool) -> Vec<usize> {
+    // around the points where a DERIVED length (field + 2, variable header, header + body) crosses a
+    // variable-byte-integer boundary: 127/128 and 16,383/16,384 minus small offsets
+    let mut v: Vec<usize> = (118..=131).collect();
+    v.extend(16_374..=16_386);
+    if thorough {
+        v.extend(100..118);
+        v.extend(132..140);
+        v.extend(16_360..16_374);
+    }
+    v
+}
+
+fn sweep_counts() -> Vec<usize> {
+    vec![0, 1, 2, 31, 32, 33, 63, 64, 65, 127, 128, 129, 255, 256, 257, 1000]
+}
+
+/// Valid v3 packets on a GRID instead of at random: one text field swept through the lengths where a
+/// derived length crosses a boundary, crossed with payload sizes and QoS; list fields swept through
+/// element counts around powers of two (also with every element equal).
+pub fn sweep_v3(thorough: bool) -> Vec<v3::Packet> {
+    use v3::*;
+    let mut out = Vec::new();
+    let name = |n: usize| TopicName::try_from("t".repeat(n)).unwrap();
+    for l in sweep_lengths(thorough) {
+        for pl in [0usize, 1, 4095, 4096, 5000] {
+            if l > 1000 && pl != 0 && pl != 4096 {
+                continue;
+            }
+            for qos_pid in [QosPid::Level0, QosPid::Level1(Pid::try_from(10).unwrap())] {
+                out.push(Packet::Publish(Publish { dup: false, retain: false, qos_pid, topic_name: name(l), payload: Bytes::from(vec![0x5a; pl]) }));
+            }
+        }
+        if l < 1000 {
+            out.push(Packet::Connect(Connect {
+                protocol: Protocol::V311,
+                clean_session: true,
+                keep_alive: 60,
+                client_id: Arc::new("c".repeat(l)),
+                last_will: Some(LastWill { qos: QoS::Level1, retain: false, topic_name: name(3), message: Bytes::from(vec![1u8; 4096]) }),
+                username: None,
+                password: None,
+            }));
+            out.push(Packet::Subscribe(Subscribe { pid: Pid::try_from(3).unwrap(), topics: vec![(TopicFilter::try_from("f".repeat(l)).unwrap(), QoS::Level0)] }));
+        }
+    }
+    for n in sweep_counts() {
+        out.push(Packet::Suback(Suback { pid: Pid::try_from(5).unwrap(), topics: (0..n).map(|i| [SubscribeReturnCode::MaxLevel0, SubscribeReturnCode::MaxLevel2, SubscribeReturnCode::Failure][i % 3]).collect() }));
+        if n > 0 {
+            out.push(Packet::Subscribe(Subscribe { pid: Pid::try_from(6).unwrap(), topics: (0..n).map(|i| (TopicFilter::try_from(format!("a/{}", i % 7)).unwrap(), QoS::Level1)).collect() }));
+            out.push(Packet::Unsubscribe(Unsubscribe { pid: Pid::try_from(7).unwrap(), topics: (0..n).map(|_| TopicFilter::try_from("same/+".to_string()).unwrap()).collect() }));
+        }
+    }
+    out
+}
+
+pub fn sweep_v5(thorough: bool) -> Vec<v5::Packet> {
+    use v5::*;
+    let mut out = Vec::new();
+    let name = |n: usize| TopicName::try_from("t".repeat(n)).unwrap();
+    let users = |n: usize| -> Vec<UserProperty> { (0..n).map(|i| UserProperty { name: Arc::new(format!("k{}", i % 5)), value: Arc::new("v".to_string()) }).collect() };
+    for l in sweep_lengths(thorough) {
+        for pl in [0usize, 4095, 4096] {
+            if l > 1000 && pl == 4095 {
+                continue;
+            }
+            for qos_pid in [QosPid::Level0, QosPid::Level2(Pid::try_from(10).unwrap())] {
+                out.push(Packet::Publish(Publish { dup: false, retain: false, qos_pid, topic_name: name(l), payload: Bytes::from(vec![0x5a; pl]), properties: Default::default() }));
+            }
+        }
+        if l < 1000 {
+            // a property section / reason string whose length crosses the boundary
+            out.push(Packet::Disconnect(Disconnect { reason_code: DisconnectReasonCode::ServerBusy, properties: DisconnectProperties { reason_string: Some(Arc::new("r".repeat(l))), ..Default::default() } }));
+            out.push(Packet::Puback(Puback { pid: Pid::try_from(9).unwrap(), reason_code: PubackReasonCode::Success, properties: PubackProperties { reason_string: Some(Arc::new("r".repeat(l))), user_properties: vec![] } }));
+            out.push(Packet::Subscribe(Subscribe { pid: Pid::try_from(3).unwrap(), properties: Default::default(), topics: vec![(TopicFilter::try_from("f".repeat(l)).unwrap(), SubscriptionOptions::new(QoS::Level1))] }));
+        }
+    }
+    for n in sweep_counts() {
+        out.push(Packet::Suback(Suback { pid: Pid::try_from(5).unwrap(), properties: Default::default(), topics: (0..n).map(|i| [SubscribeReasonCode::GrantedQoS0, SubscribeReasonCode::GrantedQoS2, SubscribeReasonCode::NotAuthorized][i % 3]).collect() }));
+        out.push(Packet::Unsuback(Unsuback { pid: Pid::try_from(5).unwrap(), properties: Default::default(), topics: (0..n).map(|i| [UnsubscribeReasonCode::Success, UnsubscribeReasonCode::NoSubscriptionExisted][i % 2]).collect() }));
+        out.push(Packet::Pubrec(Pubrec { pid: Pid::try_from(8).unwrap(), reason_code: PubrecReasonCode::Success, properties: PubrecProperties { reason_string: None, user_properties: users(n) } }));
+        if n > 0 {
+            out.push(Packet::Subscribe(Subscribe { pid: Pid::try_from(6).unwrap(), properties: Default::default(), topics: (0..n).map(|i| (TopicFilter::try_from(format!("a/{}", i % 7)).unwrap(), SubscriptionOptions::new(QoS::Level2))).collect() }));
+            out.push(Packet::Unsubscribe(Unsubscribe { pid: Pid::try_from(7).unwrap(), properties: Default::default(), topics: (0..n).map(|_| TopicFilter::try_from("same/+".to_string()).unwrap()).collect() }));
+        }
+    }
+    out
 }
